@@ -13,7 +13,7 @@ oracle:          C05's statement on the implementation's observable behaviour: n
                  within a budget linear in the input (calibrated on the unmutated file), ends with a Severity enum value.
 A failing input is minimised by bisection over the mutation parameter and compared with the model's predicted threshold.
 """
-import itertools, json, math, os, random, re, subprocess, sys, time
+import itertools, json, math, os, random, re, subprocess, sys, threading, time
 from concurrent.futures import ThreadPoolExecutor
 from vlib import build as B, lean as L
 
@@ -43,6 +43,7 @@ class Real:
         self.env = b.env()
         self.env["C05_TMPDIR"] = ctx.work
         self.n = 0
+        self.nlock = threading.Lock()   # run_list is called from several threads (ratio_stream): the list-file name is unique per call
 
     def classify(self, rc, err):
         """(kind, where) of a dead harness process"""
@@ -69,8 +70,10 @@ class Real:
         res = [None] * len(items)
         start = 0
         while start < len(items):
-            lf = os.path.join(self.ctx.work, f"list-{tag}-{self.n}.txt")
-            self.n += 1
+            with self.nlock:
+                self.n += 1
+                serial = self.n
+            lf = os.path.join(self.ctx.work, f"list-{tag}-{threading.get_ident()}-{serial}.txt")
             with open(lf, "w") as fh:
                 for mode, budget, data in items[start:]:
                     fh.write(f"{mode} {budget} hex:{hexs(data)}\n")
